@@ -131,7 +131,7 @@ def add(b, cls, x, klass, line, desc=None):
 
 
 def gen_mapping(rnd):
-    size = rnd.randint(1, 8)
+    size = rnd.choice([0, 1, 1, 2, 3, 4, 5, 6, 7, 8])      # 0: a mapping whose entries are provisioned later
     n = rnd.choice([0, 1, 3, 8, 13, 16])
     vals = []
     while len(vals) < size and not (n < 4 and len(vals) >= 2 ** n):
@@ -186,6 +186,15 @@ def run(rep, tier, seed):
         odd = gen_rfd(rnd, f, 'map')
         odd.compression_decompression_action = CDA.VALUE_SENT
         add(b, RuleFieldDescriptor, odd, 'rule-field-descriptor:p/v', 'J rfd ' + ' '.join(rfd_tokens(odd)))
+        if i % 5 == 0:
+            # a rule whose match-mapping has no entry yet: it matches nothing, and must still be a match-mapping after a reload
+            comp_ = [r for r in rules if r.nature is RuleNature.COMPRESSION and r.field_descriptors]
+            if comp_:
+                r_ = comp_[0]
+                k_ = rnd.randrange(len(r_.field_descriptors))
+                o_ = r_.field_descriptors[k_]
+                r_.field_descriptors[k_] = RuleFieldDescriptor(o_.id, o_.length, o_.position, o_.direction, MatchMapping({}), MO.MATCH_MAPPING, CDA.MAPPING_SENT)
+                add(b, RuleDescriptor, r_, 'rule:with-empty-mapping', 'J rule ' + ' '.join(rule_tokens(r_)))
         ctx = Context(id='ctx%d' % i, description='d %d' % (i % 3), interface_id='if%d' % (i % 2), parser_id=stack, ruleset=rules)
         t = ['J', 'context', str(text_code(ctx.id)), str(text_code(ctx.description)), str(text_code(ctx.interface_id)), str(text_code(ctx.parser_id)), str(len(rules))]
         for r in rules:
